@@ -883,5 +883,87 @@ theorem readAll_truncSegs (ps pps : Nat) (crc : Crc) (h8 : 8 ≤ ps) (hmax : ps 
   rw [hs]
   exact (written_stream_cut ps pps crc h8 hmax batches).2 0 0 n z (Nat.zero_mod _) nonTorn_zero
 
+/-! ### Witnesses: the extra record exists (for every checksum with `crc [] = 0`, as CRC-32C) -/
+
+theorem crc32c_nil : crc32c [] = 0 := by decide
+
+theorem frame_empty (crc : Crc) (hc : crc [] = 0) (typ : UInt8) : frame crc typ [] = typ :: zeros 6 := by
+  simp [frame, hc, be16, be32, zeros]
+
+/-- One record `[5,6,7]` (16-byte pages); the segment file cut after its first byte reads through the
+    zero-padding reader as one EMPTY record that was never written, without any error
+    (`readAll_truncSegs` with `j = 0`, `q = []`, `m = 0`). -/
+theorem padded_truncation_phantom_witness (crc : Crc) (hc : crc [] = 0) :
+    segments 16 (logAll 16 1 crc [[[5, 6, 7]]]) = [frame crc recFull [5, 6, 7] ++ zeros 6] ∧
+    readAll 16 crc (truncSegs [frame crc recFull [5, 6, 7] ++ zeros 6] 0 1) = ([[]], .eof 16) ∧
+    ([] : Bytes) ∉ [[(5 : UInt8), 6, 7]] := by
+  refine ⟨?_, ?_, by decide⟩
+  · simp [segments, logAll, logBatch, logRec, logStep, applyStep, leftInSegment, WState.init, fragFuel,
+      fragBytes, closePad, hdrSize, frame, be16, be32, zeros]
+  · have hs : segStream 16 (truncSegs [frame crc recFull [5, 6, 7] ++ zeros 6] 0 1) =
+        frame crc recFull [] ++ (zeros (16 - 7) ++ []) := by
+      rw [frame_empty crc hc]
+      simp [segStream, truncSegs, segPad, frame, zeros]
+    unfold readAll
+    rw [hs]
+    have e1 := rstep_frame 16 crc RState.init recFull [] (zeros (16 - 7) ++ []) (Or.inl rfl)
+      (by simp) (by simp) (by decide)
+    simp only [or_true, if_true] at e1
+    have e2 := rstep_zeros 16 crc ⟨RState.init.total + 7 + ([] : Bytes).length, 0, [], recFull⟩ [] 7
+      (by decide) (by decide) (by decide)
+    rw [rloop_of_emit e1 (by simp [frame_length]), rloop_of_cont e2 (by simp [zeros]), rloop_nil]
+    rfl
+
+/-- One 12-byte record over two 16-byte pages (`first` 9 bytes, `last` 3 bytes); the segment file cut one
+    byte into the header of the `last` fragment reads, without error, as the 9-byte record `[1..9]` — a
+    record that was never written (`readAll_truncSegs` with `j = 0`, `q = [1..9]`, `m = 0`). -/
+theorem padded_truncation_mangled_witness (crc : Crc) (hc : crc [] = 0) :
+    segments 16 (logAll 16 2 crc [[[1, 2, 3, 4, 5, 6, 7, 8, 9, 10, 11, 12]]]) =
+      [frame crc recFirst [1, 2, 3, 4, 5, 6, 7, 8, 9] ++ (frame crc recLast [10, 11, 12] ++ zeros 6)] ∧
+    readAll 16 crc (truncSegs
+      [frame crc recFirst [1, 2, 3, 4, 5, 6, 7, 8, 9] ++ (frame crc recLast [10, 11, 12] ++ zeros 6)] 0 17) =
+      ([[1, 2, 3, 4, 5, 6, 7, 8, 9]], .eof 32) := by
+  refine ⟨?_, ?_⟩
+  · simp [segments, logAll, logBatch, logRec, logStep, applyStep, leftInSegment, WState.init, fragFuel,
+      fragBytes, closePad, hdrSize, frame, be16, be32, zeros]
+  · have hs : segStream 16 (truncSegs
+          [frame crc recFirst [1, 2, 3, 4, 5, 6, 7, 8, 9] ++ (frame crc recLast [10, 11, 12] ++ zeros 6)] 0 17) =
+        frame crc recFirst [1, 2, 3, 4, 5, 6, 7, 8, 9] ++ (frame crc recLast [] ++ (zeros (16 - 7) ++ [])) := by
+      rw [frame_empty crc hc]
+      simp [segStream, truncSegs, segPad, frame, be16, be32, zeros]
+    unfold readAll
+    rw [hs]
+    have e1 := rstep_frame 16 crc RState.init recFirst [1, 2, 3, 4, 5, 6, 7, 8, 9]
+      (frame crc recLast [] ++ (zeros (16 - 7) ++ [])) (Or.inr (Or.inl rfl)) (by simp) (by simp) (by decide)
+    have hnf : ¬ (recFirst = recLast ∨ recFirst = recFull) := by decide
+    simp only [hnf, if_false] at e1
+    have e2 := rstep_frame 16 crc
+      ⟨RState.init.total + 7 + ([1, 2, 3, 4, 5, 6, 7, 8, 9] : Bytes).length, RState.init.i + 1,
+        RState.init.buf ++ [1, 2, 3, 4, 5, 6, 7, 8, 9], recFirst⟩ recLast []
+      (zeros (16 - 7) ++ []) (Or.inr (Or.inr (Or.inr rfl))) (by simp) (by simp) (by decide)
+    simp only [true_or, if_true] at e2
+    have e3 := rstep_zeros 16 crc
+      ⟨RState.init.total + 7 + ([1, 2, 3, 4, 5, 6, 7, 8, 9] : Bytes).length + 7 + ([] : Bytes).length, 0, [], recLast⟩
+      [] 7 (by decide) (by decide) (by decide)
+    rw [rloop_of_cont e1 (by simp [frame_length]), rloop_of_emit e2 (by simp [frame_length]),
+      rloop_of_cont e3 (by simp [zeros]), rloop_nil]
+    rfl
+
+/-- The plain (unpadded) reader returns nothing on the same cut (`plain_truncate_prefix`). -/
+theorem plain_truncation_mangled_witness (crc : Crc) :
+    (rloop 16 crc RState.init ((frame crc recFirst [1, 2, 3, 4, 5, 6, 7, 8, 9] ++
+      (frame crc recLast [10, 11, 12] ++ zeros 6)).take 17)).1 = [] := by
+  have hs : (frame crc recFirst [1, 2, 3, 4, 5, 6, 7, 8, 9] ++
+      (frame crc recLast [10, 11, 12] ++ zeros 6)).take 17 =
+      frame crc recFirst [1, 2, 3, 4, 5, 6, 7, 8, 9] ++ [recLast] := by
+    simp [frame, be16, be32, zeros]
+  rw [hs]
+  have e1 := rstep_frame 16 crc RState.init recFirst [1, 2, 3, 4, 5, 6, 7, 8, 9] [recLast]
+    (Or.inr (Or.inl rfl)) (by simp) (by simp) (by decide)
+  have hnf : ¬ (recFirst = recLast ∨ recFirst = recFull) := by decide
+  simp only [hnf, if_false] at e1
+  rw [rloop_of_cont e1 (by simp [frame_length])]
+  rw [rloop_done (status := .eof 17) (by rfl)]
+
 
 end Prom.Wal
